@@ -499,6 +499,11 @@ pub fn run(args: &[String]) -> i32 {
         .and_then(|b| serde_json::from_slice(&b).ok())
         .unwrap_or_else(|| json!({"status": "not run in this tier"}));
     let miri_violation = miri.get("status").and_then(|s| s.as_str()) == Some("violation");
+    let spawn: serde_json::Value = arg_val(args, "--spawn-summary")
+        .and_then(|p| std::fs::read(p).ok())
+        .and_then(|b| serde_json::from_slice(&b).ok())
+        .unwrap_or_else(|| json!({"status": "not run"}));
+    let spawn_violation = spawn.get("status").and_then(|s| s.as_str()) == Some("violation");
     println!("C15 tier={tier_s} VERIF_SEED={seed} runs={total} jobs={jobs}");
 
     let dir = scratch_dir("run");
@@ -750,7 +755,7 @@ pub fn run(args: &[String]) -> i32 {
         "seed": seed,
         "level": "exploration",
         "wall_s": wall,
-        "violations": violations.len() + miri_violation as usize,
+        "violations": violations.len() + miri_violation as usize + spawn_violation as usize,
         "coverage": {
             "evaluations": executions.max(1),
             "distinct_nontrivial": all_hashes.len(),
@@ -777,7 +782,8 @@ pub fn run(args: &[String]) -> i32 {
                 "available_parallelism_error_runs": avail_err_runs,
                 "timer_fires_in_recv_timeout": probes.timer_fires,
                 "timer_polls": probes.timer_polls,
-                "not_injected": ["Scope::spawn failure / worker panic: shuttle cannot model recoverable panics (DESIGN.md §2.4)"]
+                "thread_creations_refused_in_spawn_leg": spawn.get("faults_fired").cloned().unwrap_or(json!(0)),
+                "not_injected_under_shuttle": ["Scope::spawn failure / worker panic: shuttle cannot model recoverable panics (DESIGN.md §2.4); covered on real threads by the spawn-failure leg (EAGAIN from pthread_create) and by the Miri panic-propagation configuration"]
             },
             "probes": {
                 "parallel_path_runs": parallel_runs,
@@ -796,13 +802,14 @@ pub fn run(args: &[String]) -> i32 {
             },
             "determinism_check": det,
             "miri_leg": miri,
+            "spawn_failure_leg": spawn,
             "restarts_after_known_findings": rounds - 1,
             "known_findings_hit": known_hits,
             "exhaustive": false
         },
         "assumptions": [
             "shuttle's models of thread::scope and mpsc are faithful to std (cross-checked by the Miri leg of the thorough tier on un-hooked code)",
-            "termination is decided for panic-free executions only: spawn failure and worker panics are not simulated",
+            "under shuttle, termination is decided for panic-free executions only; spawn failure is injected on real threads (spawn-failure leg: schedule uncontrolled, fault controlled) and a worker panic is exercised un-hooked under Miri (thorough)",
             "inputs restricted to |latitude| <= 60 and ranges generated as start + n days (n = 0 as end = start - 1); a workload whose sequential reference panics is skipped and counted",
             "a clean batch is evidence, not proof: schedules are sampled, not enumerated"
         ]
